@@ -219,6 +219,77 @@ def generic_inputs(chk, rs, n_cases, system="qubit"):
             chk.violation("generic:exception:" + kind, "%r" % e, dict(kind=kind, i=i))
 
 
+def repeated_projection(chk, rs):
+    """The projection is a function of the object's CURRENT value: the same object projected again - after nothing, after
+    set_zero() - returns what a freshly constructed object with that value returns."""
+    from quara.objects.povm import Povm
+    from quara.objects.gate import Gate
+    from quara.objects.mprocess import MProcess
+    from quara.objects.state import State
+    from harness import qobjs
+    c = qobjs.csys("qubit", 1)
+    mk = {
+        "state": lambda: State(c, qobjs.gen("state", "a", c).vec + 0.3 * np.round(rs_l.randn(4), 3), is_physicality_required=False),
+        "povm": lambda: Povm(c, [v + 0.2 * np.round(rs_l.randn(4), 3) for v in qobjs.gen("povm", "x", c).vecs], is_physicality_required=False),
+        "gate": lambda: Gate(c, qobjs.gen("gate", "x90", c).hs + 0.2 * np.round(rs_l.randn(4, 4), 3), is_physicality_required=False),
+        "mprocess": lambda: MProcess(c, [h + 0.2 * np.round(rs_l.randn(4, 4), 3) for h in qobjs.gen("mprocess", "z-type1", c).hss], is_physicality_required=False),
+    }
+    for kind in ("state", "povm", "gate", "mprocess"):
+        for order in ("eq_ineq", "ineq_eq"):
+            seed = rs.randint(2 ** 31)
+            chk.count(1, ("repeated", kind, order))
+            ctx = dict(kind=kind, order=order, seed=int(seed))
+            try:
+                rs_l = np.random.RandomState(seed)
+                o = mk[kind]()
+                o.set_mode_proj_order(order)
+                first = stacked(o.calc_proj_physical())
+                again = stacked(o.calc_proj_physical())
+                if not np.allclose(first, again, rtol=0, atol=1e-12):
+                    chk.violation("repeated:same:%s" % kind, "the second projection of the same unchanged object differs from the first", ctx)
+                    continue
+                o.set_zero()
+                z = o.generate_zero_obj()
+                z.set_mode_proj_order(order)
+                want = stacked(z.calc_proj_physical())
+                got = stacked(o.calc_proj_physical())
+                if got.shape != want.shape or not np.allclose(got, want, rtol=0, atol=1e-9):
+                    chk.violation("repeated:after_set_zero:%s" % kind, "the projection of an object after set_zero() differs from the projection of the zero object "
+                                  "(max dev %.3g; distance to the projection before set_zero() %.3g)" % (float(np.max(np.abs(got - want))), float(np.max(np.abs(got - first)))), ctx)
+            except Exception as e:
+                chk.violation("repeated:exception:%s" % kind, "%r" % e, ctx)
+
+
+def multi_axis_mprocess(chk, rs):
+    """Measurement processes whose outcomes are laid out on more than one axis (shape (2, 2): what composing two two-outcome
+    processes gives).  The projection is the one of the same operators laid out on one axis, and keeps the layout.
+    (On the tree before 64437b4 the projection raised: the arithmetic it uses dropped the shape.)"""
+    from quara.objects.mprocess import MProcess
+    from harness import qobjs
+    c = qobjs.csys("qubit", 1)
+    z, x = qobjs.gen("mprocess", "z-type1", c), qobjs.gen("mprocess", "x-type1", c)
+    for trial, scale in enumerate((0.0, 0.05, 0.5)):
+        for order in ("eq_ineq", "ineq_eq"):
+            chk.count(1, ("multi_axis", trial, order))
+            ctx = dict(shape=[2, 2], noise=scale, order=order)
+            try:
+                hss = [0.5 * h + scale * 0.1 * np.round(rs.randn(4, 4), 3) for h in list(z.hss) + list(x.hss)]
+                m22 = MProcess(c, [h.copy() for h in hss], shape=(2, 2), is_physicality_required=False, mode_proj_order=order)
+                m4 = MProcess(c, [h.copy() for h in hss], is_physicality_required=False, mode_proj_order=order)
+                for name, r in (("+", m22 + m22), ("-", m22 - m22), ("*", m22 * 2.0), ("/", m22 / 2.0)):
+                    if tuple(r.shape) != (2, 2):
+                        chk.violation("multi_axis:arithmetic_shape", "the result of '%s' on measurement processes of shape (2, 2) has shape %s" % (name, tuple(r.shape)), ctx)
+                p22 = m22.calc_proj_physical()
+                p4 = m4.calc_proj_physical()
+                if tuple(p22.shape) != (2, 2):
+                    chk.violation("multi_axis:shape", "the projection of a measurement process of shape (2, 2) has shape %s" % (tuple(p22.shape),), ctx)
+                if not np.allclose(stacked(p22), stacked(p4), rtol=0, atol=1e-10):
+                    chk.violation("multi_axis:value", "the projection depends on the layout of the outcomes (max dev %.3g between shape (2, 2) and (4,))" % float(
+                        np.max(np.abs(stacked(p22) - stacked(p4)))), ctx)
+            except Exception as e:
+                chk.violation("multi_axis:exception", "%r" % e, ctx)
+
+
 def run(chk):
     rs = np.random.RandomState(chk.seed % (2 ** 31))
     t = chk.tier
@@ -242,6 +313,8 @@ def run(chk):
     # larger systems (the constraint routines index rows / blocks by dim and dim ** 2, which coincide only for one qubit)
     generic_inputs(chk, rs, 4 if t == "quick" else 16, system="qutrit")
     generic_inputs(chk, rs, 4 if t == "quick" else 8, system="qubit2")
+    repeated_projection(chk, rs)
+    multi_axis_mprocess(chk, rs)
     chk.notes["behaviours"] = len(groups)
     chk.assumptions += [
         "closed-form nearest physical object only on the covariant fragments (states in any frame, POVMs with a common eigenframe, Weyl-diagonal gates / measurement processes); non-commuting POVMs and generic gates: feasibility, order independence, object/variable agreement, fixed point and history consistency only (no semidefinite-programming oracle)",
